@@ -490,40 +490,37 @@ def inv5(rep, mod, table, rule='INV-5'):
 
 
 def inv6(rep):
+    from ..sympath import summaries, normal
+    from .sem import nt
     repo = rep.repo
     dmod = repo.module('declarations.py')
     f = find_def(dmod, 'directlyProvides')
     obj = shared.params(f)[0]
-    stores = [n for n in walk_local(f) if isinstance(n, ast.Assign)
-              and any(isinstance(t, ast.Attribute) and t.attr == '__provides__'
-                      and isinstance(t.value, ast.Name) and t.value.id == obj
-                      for t in n.targets)]
-    ok = bool(stores)
-    vals = []
-    for s in stores:
-        v = s.value
-        vals.append(norm_src(v)[:60])
-        if not (isinstance(v, ast.Call) and dotted(v.func) in
-                ('Provides', 'ClassProvides')):
-            ok = False
-    # no in-place mutation of an existing declaration
+    ss = normal(summaries(f))
+    vals, bad, missing = [], [], 0
     inplace = []
-    for n in walk_local(f):
-        if isinstance(n, ast.Assign):
-            for t in n.targets:
-                if isinstance(t, ast.Attribute) and t.attr in (
-                        '__bases__', '_bases', 'declared'):
-                    inplace.append(norm_src(n))
-    rep.check('INV-6', 'declarations.directlyProvides', ok and not inplace,
+    for ps in ss:
+        st = [e for e in ps.stores() if nt(e.r) == '%s.__provides__' % obj]
+        if not st:
+            missing += 1
+        for e in st:
+            v = e.val
+            vals.append(nt(v)[:60])
+            if not (isinstance(v, ast.Call) and dotted(v.func) in
+                    ('Provides', 'ClassProvides')):
+                bad.append(nt(v)[:60])
+        for e in ps.stores():
+            if isinstance(e.r, ast.Attribute) and e.r.attr in (
+                    '__bases__', '_bases', 'declared'):
+                inplace.append(repr(e)[:60])
+    rep.check('INV-6', 'declarations.directlyProvides',
+              bool(vals) and not bad and not inplace,
               'replaces object.__provides__ by a (different) specification '
               'object %s, never mutates the old one in place %s'
-              % (vals, inplace), construct='replace', node=f)
-    cfg = cfg_of(f)
-    rep.check('INV-6', 'declarations.directlyProvides',
-              must_on_all_paths(cfg, lambda n: n.ast is not None and any(
-                  n.ast is s for s in stores)),
-              'every normal path stores object.__provides__', construct='all-paths',
-              node=f)
+              % (sorted(set(vals))[:3], inplace), construct='replace', node=f)
+    rep.check('INV-6', 'declarations.directlyProvides', bool(ss) and not missing,
+              'every normal path stores object.__provides__ (%d of %d do not)'
+              % (missing, len(ss)), construct='all-paths', node=f)
 
 
 def run(rep):
